@@ -27,6 +27,9 @@ const (
 	fLinkTextTrim   = "C20-inline-content-trim"    // leading/trailing space of link text trimmed
 	fEmptyDest      = "C20-empty-destination"      // [a]() renders <a> without href
 	fAltCodeRaw     = "C20-alt-code-span-resolved" // character references / escapes inside a code span of an image description are resolved
+	fFalse          = "C20-string-false-dropped"   // the string "false" as info string, title or alt is dropped (treated as falsy)
+	fCodeNL         = "C20-code-span-line-ending"  // a line ending inside a code span stays a line ending instead of a space
+	fTrimNBSP       = "C20-content-trim-nbsp"      // v-html content is trimmed with Unicode TrimSpace: &nbsp; at the edges is lost
 	fAltLineBreak   = "C20-alt-line-break"         // a line ending inside an image description is dropped
 	fTightSeparator = "C20-tight-item-separator"   // no line break between a tight item's text and a following HTML block
 	maxDocLines     = 40
@@ -148,6 +151,10 @@ func (g *gen) inline(depth int, oneLine bool) string {
 
 // tight draws inline content that starts and ends with a word character (what emphasis needs).
 func (g *gen) tight(depth int, oneLine bool) string {
+	if g.chance("nbspEdge", 4) && g.allow(fTrimNBSP) {
+		// a no-break space at the edge of inline content: a character of the text, not white space
+		return g.of("nbsp", []string{"&nbsp;", "\u00a0", "&#160;", "&emsp;"}) + g.word() + g.of("nbsp2", []string{"&nbsp;", "\u00a0", ""})
+	}
 	switch g.pick("tight", []int{50, 30, 20}) {
 	case 0:
 		return g.word()
@@ -181,6 +188,9 @@ func (g *gen) linkTitle() string {
 		t = g.of("titleE", titlesEsc)
 	} else {
 		t = g.of("title", titlesSafe)
+		if g.chance("titleFalse", 6) && g.allow(fFalse) {
+			t = "false"
+		}
 	}
 	switch g.n("tq", 0, 3) {
 	case 0:
@@ -257,7 +267,7 @@ func (g *gen) codeSpan(oneLine bool) string {
 		parts = append(parts, g.of("csa", codeAtoms))
 	}
 	joiner := " "
-	if !oneLine && g.chance("csnl", 10) {
+	if !oneLine && g.chance("csnl", 10) && g.allow(fCodeNL) {
 		joiner = "\n"
 	}
 	body := strings.Join(parts, joiner)
@@ -413,7 +423,11 @@ func (g *gen) item(depth int, oneLine bool) string {
 		return g.refLink(depth, oneLine)
 	case 11:
 		alt := g.word()
-		switch g.n("alt", 0, 8) {
+		switch g.n("alt", 0, 9) {
+		case 9:
+			if g.allow(fFalse) {
+				alt = "false"
+			}
 		case 8:
 			if g.allow(fAltCodeRaw) {
 				alt = g.word() + " `&amp; \\*` " + g.word() // code span content is literal, in a description too
@@ -516,6 +530,9 @@ func (g *gen) fenced() []string {
 			info = g.of("infoE", infoEsc)
 		} else {
 			info = g.of("infoS", infoSafe)
+			if g.chance("infoFalse", 8) && g.allow(fFalse) {
+				info = g.of("infoF", []string{"false", "false x", "False", "falsey"})
+			}
 		}
 		if fence[0] == '`' {
 			info = strings.ReplaceAll(info, "`", "'")
